@@ -100,6 +100,11 @@ def step (s : S) (toks : List String) : S × String :=
         ({ s with k := k }, "ok " ++ stateStr k)
       else (s, "err:delete " ++ stateStr s.k)
     | none => (s, "bad-op")
+  | ["mine", o] =>
+    -- `MineWS`: only a space in use; the configuration state (index, selection, files) is untouched whatever the space's state
+    match o.toNat? with
+    | some o => if s.k.inUse.any (·.ord == o) then (s, "ok " ++ stateStr s.k) else (s, "err:mine " ++ stateStr s.k)
+    | none => (s, "bad-op")
   | ["remove", o] =>
     match o.toNat? with
     | some o =>
